@@ -25,6 +25,7 @@ for c in m["checks"]:
                        "hashbrown as a finite map, RefCell scopes, abort, no counter overflow. See DESIGN.md 8 and 12.")
     c["technique"] = ("Coq proof (invariant over a small-step machine model) + differential correspondence of the extracted model with the instrumented Rust implementation"
                       + ("; counter protocol translated from src/rc.rs to Gallina on every run (tools/rs2v.py) and proved equal to the model's (gen/CountersProofs.v)" if pid in ("C04", "C05", "C06", "C16") else "")
+                      + ("; adopt_unchecked/unadopt translated from src/adopt.rs on every run and proved equal to the model's adopt/unadopt and to the borrow events of Proofs/Borrow.v (gen/AdoptProofs.v)" if pid in ("C08", "C10") else "")
                       + ("; borrow sites re-derived from the source and compared with the transcription of Proofs/Borrow.v" if pid == "C10" else ""))
 m["not_applicable"] = []
 json.dump(m, open(os.path.join(ROOT, "MANIFEST.json"), "w"), indent=1)
